@@ -6,6 +6,13 @@ Streams
             (value / exception) -> rows of lean/PyaModel/Generated/OpTables*.lean (translate), each row also
             classified by the Lean driver (agree / D-class / model verdict); `rowcheck` compares the Lean
             classification with the Python evaluation of the property on the same row
+  attrtab : the attribute table: every operand class (numbers, text, containers, None/Ellipsis, enum members, classes,
+            modules, functions) x every attribute name any of them has (union of dir(), ~550 names incl. every dunder)
+            + names nobody has -> lean/PyaModel/Generated/AttrTables*.lean; CPython's getattr outcome/value vs
+            pyanalyze's undefined_attribute/inferred value; rows also go through the Lean model of
+            _get_attribute_from_known (knownAttr/attrReported). thorough: all rows regenerated; quick: every special
+            name on every operand + a seeded stratified sample re-computed and compared with the stored table
+            (any difference => full regeneration)
   spec    : Lean `cpyBinop` (dunder-level dispatch) vs what CPython really did, per binary row
   binop   : unit facts per side (signature verdict of `T.__op__(l, r)` checked by pyanalyze, runtime outcome
             from CPython) -> Lean model `binop` == end-to-end verdict of `l op r`
@@ -46,7 +53,10 @@ RULE = (
     "enum / int-enum members incl. ones with user __add__/__radd__, classes, modules) x 13 binary operators x universe, "
     "3 unary operators, 26 attribute names (present and absent), 15 indices (-4..4, True, an IntEnum member, non-int keys), all "
     "enumerated exhaustively and regenerated from the live tree on every run; then seeded random literals (ints in "
-    "[-300,300], short strs/bytes, tuples) for the same operation kinds; thorough adds a widened universe. Excluded "
+    "[-300,300], short strs/bytes, tuples) for the same operation kinds; thorough adds a widened universe; "
+    "attribute table: 51 operand classes x the union of dir() over them (~550 names) + names nobody has, thorough: every pair, "
+    "quick: ~30 special names (__dict__, __class__, __slots__, __module__, __annotations__, name, value, ...) on every operand "
+    "+ for every other name one seeded operand per kind group; volatile attributes of sys are left out. Excluded "
     "(outside the property): `%` with a str/bytes left operand (format strings, C17), ordering comparisons, "
     "exceptions other than TypeError/AttributeError (ZeroDivisionError, ValueError, OverflowError, KeyError), "
     "IndexError on anything but a tuple; lint-only codes are off. getitem: all member shapes (fixed / starred) up to "
@@ -61,6 +71,8 @@ ASSUMPTIONS = [
 ]
 TRUSTED = [
     "Spec/OpsSpec.lean: elemAt/expand (CPython indexing) validated against real indexing, cpyBinop against real operators, on every run",
+    "the attribute table lean/PyaModel/Generated/AttrTables*.lean (28k rows) is regenerated in the thorough tier and whenever a re-computed row differs; the quick tier re-computes ~5.7k of its rows (all special names + a seeded stratified sample) and requires them to equal the stored rows",
+    "stub facts (bit 11: the stubs declare the name as variable/property on a class of the MRO) are read with typeshed_client from the typeshed copy pyanalyze ships with",
     "the operation table lean/PyaModel/Generated/OpTables*.lean is regenerated from the live tree by translate(); its three obligations are re-proved by the kernel (decide +kernel) whenever it changes",
 ]
 
@@ -492,7 +504,7 @@ def build_rows(ns, operands, cases, intern_t, intern_v, with_impl=True):
             ct, cv = intern_t(cval[0]), intern_v(cval)
         if p == 0:
             pt, pvv = intern_t(plit[0]), intern_v(plit)
-        row = (kid[kind], opid[(kind, op)], idx[a], idx.get(b, 0), tags[a], tags.get(b, 0), fl, c, ct, cv, p, pt, pvv)
+        row = (kid[kind], opid.get((kind, op), 999), idx[a], idx.get(b, 0), tags[a], tags.get(b, 0), fl, c, ct, cv, p, pt, pvv)
         out.append({"case": case, "expr": expr, "row": row, "cpy": (c, cval), "pya": (p, plit, codes), "sidevals": sidevals})
     return out
 
